@@ -88,6 +88,48 @@ class Index:
     def __eq__(self, o): raise ShimGap('Index ==')
     __hash__ = None
     def __repr__(self): return 'Index(%r)' % (self.l,)
+
+    def __getattr__(self, n):
+        if n.startswith('__') or n == 'l':
+            raise AttributeError(n)
+        raise ShimGap('Index.' + n)
+
+    def _dedup(self, labs):
+        out = []
+        for x in labs:
+            if not builtins.any(_lab_eq(x, y) for y in out):
+                out.append(x)
+        return out
+
+    def unique(self): return Index(self._dedup(self.l))
+    def append(self, o): return Index(self.l + list(o.l if isinstance(o, Index) else _flat(o)))
+
+    def union(self, o, sort=None):
+        labs = self._dedup(self.l + list(o.l if isinstance(o, Index) else _flat(o)))
+        try:
+            labs = np_._sorted(labs)
+        except TypeError:
+            pass
+        return Index(labs)
+
+    def intersection(self, o, sort=False):
+        ol = list(o.l if isinstance(o, Index) else _flat(o))
+        return Index(self._dedup([x for x in self.l if builtins.any(_lab_eq(x, y) for y in ol)]))
+
+    def difference(self, o, sort=None):
+        ol = list(o.l if isinstance(o, Index) else _flat(o))
+        return Index(np_._sorted(self._dedup([x for x in self.l if not builtins.any(_lab_eq(x, y) for y in ol)])))
+
+    def isin(self, vals):
+        vals = list(_flat(vals))
+        return ndarray([builtins.any(_lab_eq(x, y) for y in vals) for x in self.l])
+
+    @property
+    def is_monotonic_increasing(self):
+        return builtins.all(bool(sbool(a <= b)) for a, b in zip(self.l, self.l[1:]))
+
+    @property
+    def has_duplicates(self): return not self.unique_labels()
     def __deepcopy__(self, memo): return Index(list(self.l))
 
 
@@ -367,11 +409,85 @@ class Series:
         raise ShimGap('Series.equals')
 
     def to_string(self, **k): return '<series>'
+
+    @property
+    def str(self): return _StrAcc(self)
+
+    def __getattr__(self, n):
+        if n.startswith('_') or n in ('v', 'index', 'name', 'dtype'):
+            raise AttributeError(n)
+        raise ShimGap('Series.' + n)
+
+    def duplicated(self, **kw):
+        if kw:
+            raise ShimGap('Series.duplicated(%s)' % ','.join(kw))
+        out = []
+        for i, x in enumerate(self.v):
+            d = False
+            for y in self.v[:i]:
+                d = _or(d, _same_cell(x, y))
+            out.append(d)
+        return Series(out, self.index, None, bool)
+
+    def drop_duplicates(self, **kw):
+        if kw:
+            raise ShimGap('drop_duplicates(%s)' % ','.join(kw))
+        return self._take([i for i, b in enumerate(self.duplicated().v) if not bool(b)])
+
     def __deepcopy__(self, memo): return self.copy()
     def __repr__(self): return '<Series n=%d>' % len(self.v)
 
     def __array__(self, *a, **k):
         raise ShimGap('model Series handed to real numpy')
+
+
+def _frag_slice(x, sl):
+    """Slice a str that may hold formatted-symbolic-integer tokens; cutting through a token is a gap."""
+    if x is None or (isinstance(x, float) and x != x):
+        return x
+    if not isinstance(x, str):
+        raise AttributeError('Can only use .str accessor with string values')
+    if core._TOK_L not in x:
+        return x[sl]
+    units = []
+    for piece in core.decode_fragments(x):
+        if isinstance(piece, str):
+            units += list(piece)
+        else:
+            val, spec = piece
+            if spec not in ('03', '03d'):
+                raise ShimGap('slicing a formatted symbolic integer with spec %r' % spec)
+            units += [('atom', piece, k) for k in range(3)]
+    sel = units[sl]
+    out, i = '', 0
+    while i < len(sel):
+        u = sel[i]
+        if isinstance(u, builtins.str):
+            out += u
+            i += 1
+            continue
+        grp = sel[i:i + 3]
+        if len(grp) == 3 and builtins.all(isinstance(g, tuple) and g[1] is u[1] for g in grp) and [g[2] for g in grp] == [0, 1, 2]:
+            n = [k for k, a in enumerate(core.ENG.atoms) if a is u[1]][0]
+            out += '%s%d%s' % (core._TOK_L, n, core._TOK_R)
+            i += 3
+        else:
+            raise ShimGap('slice cuts through the digits of a formatted symbolic integer')
+    return out
+
+
+class _StrAcc:
+    def __init__(self, s): self.s = s
+    def __getitem__(self, k):
+        if isinstance(k, slice):
+            return self.s._map(lambda x: _frag_slice(x, k))
+        raise ShimGap('Series.str[%r]' % (k,))
+    def slice(self, start=None, stop=None, step=None): return self[slice(start, stop, step)]
+    def len(self): raise ShimGap('Series.str.len')
+    def __getattr__(self, n):
+        if n.startswith('_') or n == 's':
+            raise AttributeError(n)
+        raise ShimGap('Series.str.' + n)
 
 
 def _anyeq(x, vals):
@@ -639,6 +755,12 @@ class DataFrame:
                 d = _or(d, e)
             out.append(d)
         return Series(out, self.index, None, bool)
+
+    def drop_duplicates(self, subset=None, **kw):
+        if kw:
+            raise ShimGap('drop_duplicates(%s)' % ','.join(kw))
+        src = self if subset is None else self[[subset] if isinstance(subset, str) else list(subset)]
+        return self._take([i for i, b in enumerate(src.duplicated().v) if not bool(b)])
 
     def merge(self, o, how='inner', on=None):
         if how != 'inner' or on is None:
